@@ -8,12 +8,19 @@ real run : (layer "proto") the real StreamReaderBufferedProtocol driven through 
            socketpair, a timeout scope or task.cancel() forced into the same loop iteration as the read event.
 model run: the same event list through the Lean protocol + task model (endriver `rp`); layer e2e has no model run.
 oracle   : bytes / packets returned by all receives == bytes / packets the peer wrote (nothing lost, duplicated, reordered).
+round 5  : (layer "e2e", kinds "citer" / "srvfull", vlib/c10_iter.py) the receive entry points ABOVE the endpoint —
+           AsyncTCPNetworkClient / AsyncUDPNetworkClient recv_packet() and iter_received_packets() (anext on one kept iterator,
+           async for, fresh iterator per packet), the datagram endpoint, the request receivers, the whole server chain with a
+           handler that yields time-outs — cancelled by task.cancel() / an enclosing move_on_after / asyncio.timeout right after
+           EVERY step of the consuming task (step-counting task), or by enclosing deadlines equal to the arrival times; in-memory
+           transport, virtual time; oracle: packets handed out + packets of the later receives == packets sent.
 """
 from __future__ import annotations
 
 from typing import Any
 
 from vlib import c10_drive as drv
+from vlib import c10_iter as citer
 from vlib import core
 
 ID = "C10"
@@ -56,7 +63,10 @@ RULE = (
     "proto case = list of events recv/into/io/eof/lost/cancel/turn (<= 16) + finishing turns and draining receives; "
     "non-trivial = a cancel issued while a receive is alive, classed by what shares its loop iteration "
     "(cancel-then-io, io-then-cancel, cancel alone, cancel before first step) and by receive kind; "
-    "e2e case = receive path x ops (recvpkt with timeout / peer write / cancel / tick / turn); distinct by case digest"
+    "e2e case = receive path x ops (recvpkt with timeout / peer write / cancel / tick / turn); "
+    "citer case = receive stack (TCP / UDP client, endpoints, request receiver) x entry point (recv_packet, iterator anext / async for) "
+    "x arrival times of the stream x cancellation source, swept over every step of the consuming task; srvfull = server chain with a "
+    "handler yielding time-outs; non-trivial = at least one cancellation was delivered inside the receive; distinct by case digest"
 )
 
 _aux: dict[str, Any] = {}
@@ -82,7 +92,12 @@ def run_real(case: dict) -> list[str]:
         r.close()
 
 
+_ITER_KINDS = ("citer", "srvfull")
+
+
 def _run_e2e(case: dict) -> list[str]:
+    if case.get("kind") in _ITER_KINDS:
+        return citer.run(case)
     if case.get("kind") == "tls":
         r = drv.TLSRun()
     elif case.get("kind") == "sync":
@@ -130,6 +145,8 @@ def oracle(case: dict, real: list[str]) -> str | None:
     for ln in real:
         if ln.startswith("harness-exc") or ln.startswith("unhandled"):
             return ln
+    if case.get("kind") in _ITER_KINDS:
+        return citer.oracle(case, real)
     if case.get("layer", "proto") == "e2e":
         written = next((ln.split()[1] for ln in real if ln.startswith("written ")), "-")
         if case.get("kind") == "tls":
@@ -188,6 +205,8 @@ def _windows(events: list) -> list[list]:
 
 
 def nontrivial(case: dict, real: list[str]) -> str | None:
+    if case.get("kind") in _ITER_KINDS:
+        return citer.nontrivial(case, real)
     if case.get("layer", "proto") == "e2e":
         if any(ln in ("cancelled", "timeout") for ln in real):
             return f"e2e/{case.get('kind', 'endpoint')}/{case['path']}/" + ("timeout" if "timeout" in real else "cancel")
@@ -223,6 +242,9 @@ def nontrivial(case: dict, real: list[str]) -> str | None:
 
 
 def shrink(case: dict):
+    if case.get("kind") in _ITER_KINDS:
+        yield from citer.shrink(case)
+        return
     if case.get("layer", "proto") == "e2e":
         ops = case["ops"]
         for i in range(len(ops)):
@@ -243,6 +265,8 @@ def known_key(case: dict, real: list[str], why: str) -> str:
     F4  = bytes delivered through the caller's buffer of receive_data_into are dropped when the receive is cancelled in
           the same loop iteration (protocol level; reaches the buffered endpoint / server receiver and the TLS reader);
     F4b = plaintext already read from the SSL object is dropped when recv is cancelled while flushing pending output."""
+    if case.get("kind") in _ITER_KINDS:
+        return f"layer=e2e,kind={case['kind']},source={case.get('source', case.get('server'))},entry={case.get('entry')}"
     if case.get("layer", "proto") == "e2e":
         kind = case.get("kind", "endpoint")
         disturbed = any(op[0] in ("cancel", "tick") for op in case["ops"]) or kind == "tls"
@@ -304,6 +328,9 @@ def corpus() -> list[dict]:
     cs.append({"layer": "e2e", "kind": "tls", "path": "tls", "ops": [["recvpkt", 1.0], ["turn"], ["turn"], ["bigsend", 2000000], ["turn"], ["turn"],
                                                                       ["turn"], ["peer", "616263"], ["turn"], ["turn"], ["tick", 1.0], ["turn"],
                                                                       ["turn"], ["peer-drain"], ["peer", "6465"]]})
+    # round 5: the receive entry points above AsyncStreamEndpoint.recv_packet() (client iterators, UDP client, request receivers,
+    # the whole server chain), cancelled at every suspension point (vlib/c10_iter.py)
+    cs += citer.corpus()
     return cs
 
 
@@ -437,6 +464,8 @@ def generate(rng, tier: str, boost: int):
         yield _gen_sync(rng)
     for _ in range(m // 5):
         yield _gen_tls(rng)
+    for i in range((450 if tier == "quick" else 12000) * boost):
+        yield citer.gen_srvfull(rng) if i % 7 == 0 else citer.gen_citer(rng)
 
 
 def extra_coverage(stats) -> dict:
